@@ -17,7 +17,7 @@
 
    This file holds only statements, each closed by [exact] of a lemma from
    Proofs/, followed by Print Assumptions; plus pins and examples. *)
-From RM Require Import Model.EncSpec Proofs.EncFmt Proofs.EncShape Proofs.EncSimple.
+From RM Require Import Model.EncSpec Proofs.EncFmt Proofs.EncShape Proofs.EncSimple Proofs.EncImage.
 From RM Require Import Gen.Generated.
 Open Scope Z_scope.
 
@@ -194,3 +194,65 @@ Theorem C04_colours_read_back :
   run_lines parse_colors colors_default (map (render fmt_f64 fmt_f32 fmt_int) (body (enc_colors c))) = c.
 Proof. intros f64 f32 fi Hfmt c H. exact (colors_section f64 f32 fi Hfmt c H). Qed.
 Print Assumptions C04_colours_read_back.
+
+(* ---------- the domain: maps obtained by decoding ---------- *)
+
+(* decode_image_inv.  Whatever the input lines (well-formed, non-chronological,
+   hostile; a line is a piece between two line feeds), every field of the six
+   simple sections of the decoded map holds a representable value: strings
+   are trimmed and free of line breaks, numbers lie within the parse limits,
+   clamped values within their clamp range, enums are enum values, breaks end
+   after they start, colour names are distinct keys, sample banks are banks.
+   One exception (known finding D23): the file names may contain "//". *)
+Theorem C04_decode_image_inv :
+  forall dist lines m,
+  Forall no_lf_line lines -> decode_beatmap dist lines = Done m ->
+  simple_pre m = true /\ (d23_class m = false -> simple_ok m = true).
+Proof.
+  intros dist lines m Hl H.
+  exact (conj (decode_image_pre dist lines m Hl H) (decode_image_inv dist lines m Hl H)).
+Qed.
+Print Assumptions C04_decode_image_inv.
+
+(* hence the hypotheses of the per-section statements above hold of every decoded map *)
+Theorem C04_decoded_sections_representable :
+  forall m, simple_ok m = true ->
+  i32_ok (bmv_version m) = true /\ general_ok (hov_general (bmv_ho m)) = true /\
+  editor_ok (bmv_editor m) = true /\ metadata_ok (bmv_metadata m) = true /\
+  difficulty_ok (hov_difficulty (bmv_ho m)) = true /\ events_ok (hov_events (bmv_ho m)) = true /\
+  colors_ok (bmv_colors m) = true /\ enum4_ok (first_sample_bank (hov_control_points (bmv_ho m))) = true.
+Proof. exact simple_ok_parts. Qed.
+Print Assumptions C04_decoded_sections_representable.
+
+(* D23 (known finding): the full statement "every decoded map satisfies simple_ok" is
+   refuted -- `AudioFilename: a\\b.mp3` decodes to the name a//b.mp3, and the record
+   the encoder writes from that name is read back with a different name, for every
+   formatting function and every parser state. *)
+Theorem C04_file_name_misread_refuted :
+  exists text,
+  let g := decode_general (lines_of_text text) in
+  general_pre g = true /\ has_ss (g_audio_file g) = true /\
+  forall f64 f32 fi st,
+    g_audio_file (fst (parse_general st (render f64 f32 fi (kv_line (gkey GAudioFilename) (TStr (g_audio_file g))))))
+    <> g_audio_file g.
+Proof. exists d23_text. exact d23_witness. Qed.
+Print Assumptions C04_file_name_misread_refuted.
+
+(* ---------- what is not proved here (full statements kept visible) ----------
+
+   T04b for timing-point lines [P]:
+     forall m ls tp, (C04_shape decomposition) -> simple_ok m = true ->
+       Forall (fun l => forall st, exists st', parse_timing_points st (render l) = Done (st', Ok)) tp.
+   Needs: time / beat length / -100/sv within the parse limits (the slider velocity is
+   clamped to [0.1, 10] and times are finite by C12's value theorems, but sample times
+   collected from hit objects -- start + duration -- can exceed the limit by rounding),
+   signature > 0, bank/custom/volume within i32.  Covered by the `enc` correspondence and
+   the C04 oracle (every encoded timing line is parsed with Beatmap::parse_timing_points).
+
+   T04b / T04c for hit-object lines [P]:
+     circles / spinners / holds:  parse_hit_objects st (render (object_line mode h)) = Done (st', Ok)
+     and the pushed object equals h up to carry; sliders additionally outside D17 / D21.
+   Not mechanised in this package; covered by the `enc` correspondence (slider files
+   included, curve and slider-event models connected) and by the C04 / C02 oracles
+   (each encoded hit-object line is parsed, kind and start time compared, objects
+   compared field by field in C02).  Known classes there: D17, D21 (C04: D21). *)
